@@ -71,8 +71,8 @@ def _fn_src(field, fid, strok=False):
         # the faulty quantity raises, or returns something of the wrong type: a list or - where strings are not
         # data - a NumPy string scalar
         return ("lambda d: (%s) if d['fa'] != %r else ((_ for _ in ()).throw(ValueError('injected fault')) "
-                "if d['fm'] == 'raise' else (__import__('numpy').str_('zz') if d['fm'] == 'npstr' and %r else []))"
-                % (core, fid, not strok))
+                "if d['fm'] == 'raise' else (__import__('numpy').str_('zz') if d['fm'] == 'npstr' and %r else "
+                "((-1.0) ** 0.5 if d['fm'] == 'complex' else [])))" % (core, fid, not strok))
     return "lambda d: %s" % core
 
 
